@@ -125,12 +125,14 @@ Definition mon_cosim (ins : list N) : bool :=
    share / allocation)] *)
 Definition mon_safe (ins : list N) : bool :=
   match ins with
-  | [class; len_ok; viol] => (class <=? 2) && (len_ok =? 1) && (viol =? 0)
+  | class :: len_ok :: viol :: _ => (class <=? 2) && (len_ok =? 1) && (viol =? 0)
   | _ => false
   end.
 
 Definition queue_monitor (k : N) (ins : list N) : list N :=
   if k =? 160 then [b2n (mon_safe ins)] else
+  (* kind 158 (C02): [instants checked; instants at which an entry below the visible index was incomplete] *)
+  if k =? 158 then match ins with [checks; viol] => [b2n (viol =? 0)] | _ => [77777] end else
   if k =? 155 then [b2n (mon_notify ins)] else
   if k =? 156 then [b2n (mon_cosim ins)] else
   if k =? 157 then match ins with [ue; lu] => [b2n (ue =? lu)] | _ => [77777] end else
